@@ -1,8 +1,10 @@
 -- expect: true	false	false	true	4
 -- expect: true	4
 -- expect: true	5
--- expect: false	false
--- expect: false	false
+-- expect[jit]: false	false
+-- expect[5.3]: true	true
+-- expect[jit]: false	false
+-- expect[5.3]: true	true
 -- expect: false	false	false	false
 -- expect: true
 -- expect: false	true
